@@ -346,8 +346,98 @@ def globMatch : List Char → List Char → Bool
         | [] => false
         | c :: cs => (p == '?' || p == c) && globMatch ps cs
 
+/-! ### `fnmatch` with character classes
+
+`fnmatch.translate` (CPython 3.12, `Lib/fnmatch.py:77-185`) statement by
+statement: `[` opens a class when a closing `]` exists after an optional `!` and
+an optional first `]`; otherwise `[` is a literal.  Inside the class text a
+character followed by `-` and a further character is a range (a range whose
+bounds are out of order is empty), everything else — `^`, `[`, `&`, `~`, `|`, a
+leading or trailing `-` — is a literal member.  An empty class never matches, a
+negated empty class matches any character.  (One quirk of CPython is *not*
+mirrored: when the class text begins with an empty range, as in `[b-a!x]`, the
+translation re-reads a following `!` as negation; the harness never sends such a
+pattern to the model.) -/
+
+/-- one unit of a translated pattern -/
+inductive Tok where
+  | star | any
+  | lit (c : Char)
+  | cls (neg : Bool) (body : List Char)
+  deriving DecidableEq, Repr
+
+/-- split at the first `c`: text before it, text after it -/
+def spanTo (c : Char) : List Char → Option (List Char × List Char)
+  | [] => none
+  | x :: xs => if x == c then some ([], xs) else (spanTo c xs).map fun r => (x :: r.1, r.2)
+
+/-- the text after a `[`: `(negated, class text, text after the closing ']')`,
+`none` when the class is not closed -/
+def splitClass (p : List Char) : Option (Bool × List Char × List Char) :=
+  let neg := p.head? == some '!'
+  let q := if neg then p.tail else p
+  match q with
+  | [] => none
+  | x :: q' =>
+      if x == ']' then (spanTo ']' q').map fun r => (neg, ']' :: r.1, r.2)
+      else (spanTo ']' q).map fun r => (neg, r.1, r.2)
+
+/-- reading position inside a class text: at the start of an item, after a
+member `lo`, after `lo-` -/
+inductive CSt where
+  | s0
+  | s1 (lo : Char)
+  | s2 (lo : Char)
+
+/-- membership in a class text, read left to right: `lo-hi` is a range (empty
+when out of order), after which a new item starts; every other character — also
+a `-` with nothing before or after it — is a literal member -/
+def classGo (c : Char) : CSt → List Char → Bool
+  | .s0, [] => false
+  | .s1 lo, [] => lo == c
+  | .s2 lo, [] => lo == c || '-' == c
+  | .s0, x :: t => classGo c (.s1 x) t
+  | .s1 lo, x :: t => if x == '-' then classGo c (.s2 lo) t else lo == c || classGo c (.s1 x) t
+  | .s2 lo, x :: t => (decide (lo ≤ c) && decide (c ≤ x)) || classGo c .s0 t
+
+def classHas (c : Char) (body : List Char) : Bool := classGo c .s0 body
+
+/-- the character `c` is accepted by a non-`*` token -/
+def Tok.accepts (c : Char) : Tok → Bool
+  | .star => false
+  | .any => true
+  | .lit x => x == c
+  | .cls neg body => if neg then !(classHas c body) else classHas c body
+
+/-- the pattern as tokens; the fuel is the pattern length (the text after a
+class is shorter than the text after its `[`) -/
+def tokenize : Nat → List Char → List Tok
+  | 0, _ => []
+  | _, [] => []
+  | n + 1, c :: cs =>
+      if c == '*' then .star :: tokenize n cs
+      else if c == '?' then .any :: tokenize n cs
+      else if c == '[' then
+        match splitClass cs with
+        | some (neg, body, rest) => .cls neg body :: tokenize n rest
+        | none => .lit '[' :: tokenize n cs
+      else .lit c :: tokenize n cs
+
+/-- a token list against a text: `*` any run, every other token one character -/
+def matchToks : List Tok → List Char → Bool
+  | [], t => t.isEmpty
+  | tok :: ps, t =>
+      if tok = .star then (suffixes t).any (matchToks ps)
+      else
+        match t with
+        | [] => false
+        | c :: cs => tok.accepts c && matchToks ps cs
+
+/-- `fnmatch.fnmatchcase` (arguments: pattern, file name), classes included -/
+def fnMatch (p t : List Char) : Bool := matchToks (tokenize p.length p) t
+
 def asciiEnv (eps : List LangDesc) (geps : List GenDesc) : Env :=
-  { lower := asciiLower, fnm := fun f p => globMatch p.toList f.toList, eps := eps, geps := geps }
+  { lower := asciiLower, fnm := fun f p => fnMatch p.toList f.toList, eps := eps, geps := geps }
 
 /-! ## Abstract specification
 
